@@ -664,7 +664,9 @@ tpt_ev_post(int op, tp_event_p ev, tp_udata_p tp_udata) {
 				return (ENOENT);
 			error = 0;
 err_out_timer:
-			close(tfd); /* No need to epoll_ctl(EPOLL_CTL_DEL). */
+			/* close() alone is not enough if child process hold the descriptor. */
+			epoll_ctl((int)tp_udata->tpt->io_fd, EPOLL_CTL_DEL, tfd, &epev);
+			close(tfd);
 			tp_udata->tpdata = 0;
 			return (error);
 		case TP_CTL_DISABLE:
@@ -685,7 +687,9 @@ err_out_timer:
 		    (0 != (TP_FF_T_ABSTIME & ev->fflags))) {
 			/* Created for other clock: absolute time on monotonic
 			 * clock never come. Re create. */
-			close(tfd); /* No need to epoll_ctl(EPOLL_CTL_DEL). */
+			/* close() alone is not enough if child process hold the descriptor. */
+			epoll_ctl((int)tp_udata->tpt->io_fd, EPOLL_CTL_DEL, tfd, &epev);
+			close(tfd);
 			tp_udata->tpdata = 0;
 			tfd = -1;
 		}
@@ -755,7 +759,9 @@ err_out_timer:
 				return (ENOENT);
 			error = 0;
 err_out_proc:
-			close(tfd); /* No need to epoll_ctl(EPOLL_CTL_DEL). */
+			/* close() alone is not enough if child process hold the descriptor. */
+			epoll_ctl((int)tp_udata->tpt->io_fd, EPOLL_CTL_DEL, tfd, &epev);
+			close(tfd);
 			tp_udata->tpdata = 0;
 			return (error);
 		case TP_CTL_ADD: /* Add proc. */
@@ -942,7 +948,9 @@ tpt_loop(tpt_p tpt) {
 				tp_udata->tpdata |= TPDATA_F_DISABLED;
 			}
 			if (0 != (TP_F_ONESHOT & tpev_flags)) { /* Onetime. */
-				close(tfd); /* No need to epoll_ctl(EPOLL_CTL_DEL). */
+				/* close() alone is not enough if child process hold the descriptor. */
+				epoll_ctl((int)tp_udata->tpt->io_fd, EPOLL_CTL_DEL, tfd, &epev);
+				close(tfd);
 				tp_udata->tpdata = 0;
 			}
 			break;
@@ -953,7 +961,9 @@ tpt_loop(tpt_p tpt) {
 			ev.fflags = TP_FF_P_EXIT;
 			ev.data = (uint64_t)itm;
 			/* Close pidfd. */
-			close(TPDATA_TFD_GET(tp_udata->tpdata)); /* No need to epoll_ctl(EPOLL_CTL_DEL). */
+			/* close() alone is not enough if child process hold the descriptor. */
+			epoll_ctl((int)tp_udata->tpt->io_fd, EPOLL_CTL_DEL, TPDATA_TFD_GET(tp_udata->tpdata), &epev);
+			close(TPDATA_TFD_GET(tp_udata->tpdata));
 			tp_udata->tpdata = 0;
 			break;
 		}
@@ -1637,7 +1647,7 @@ tpt_ev_post_validate_args(int op, uint16_t event,
 int
 tpt_ev_add(tpt_p tpt, tp_event_p ev, tp_udata_p tp_udata) {
 
-	if (NULL == tp_udata)
+	if (NULL == tp_udata || NULL == tpt) /* Do not damage live tp_udata. */
 		return (EINVAL);
 	tp_udata->tpt = tpt;
 
@@ -1648,7 +1658,7 @@ int
 tpt_ev_add_args(tpt_p tpt, uint16_t event, uint16_t flags,
     uint32_t fflags, uint64_t data, tp_udata_p tp_udata) {
 
-	if (NULL == tp_udata)
+	if (NULL == tp_udata || NULL == tpt) /* Do not damage live tp_udata. */
 		return (EINVAL);
 	tp_udata->tpt = tpt;
 
@@ -1660,7 +1670,7 @@ int
 tpt_ev_add_args2(tpt_p tpt, uint16_t event, uint16_t flags,
     tp_udata_p tp_udata) {
 
-	if (NULL == tp_udata)
+	if (NULL == tp_udata || NULL == tpt) /* Do not damage live tp_udata. */
 		return (EINVAL);
 	tp_udata->tpt = tpt;
 
